@@ -36,11 +36,20 @@ class Seqs:
         self.entry = entry or {}        # term -> sequence (entry state of memory cells)
         self.sources = sources or {}    # term -> (source name, width) for opaque values (arguments, fetched words)
         self.cache = {}
+        self.memo = {}
 
     # ---- order ------------------------------------------------------------------
     def ent_le(self, a, b):
-        g = le(a, b)
-        return lp.entails(self.num.close(self.store, [g]), g)
+        d = a - b
+        if d.is_const():
+            return d.k <= 0
+        key = repr(d)
+        r = self.memo.get(key)
+        if r is None:
+            g = le(a, b)
+            r = lp.entails(self.num.close(self.store, [g]), g)
+            self.memo[key] = r
+        return r
 
     def ent_eq(self, a, b):
         return self.ent_le(a, b) and self.ent_le(b, a)
